@@ -213,6 +213,8 @@ def run_c15(ctx):
             # name values the defaults do not contain
             pool = t.perm(a_vals + [v for v in (21, 22) if v not in a_vals], "a-sub")
             sub = pool[: t.int_between(1, min(3, len(pool)), "na-sub")]
+            if t.flag(1, 4, "override-repeats-a-choice"):
+                sub = list(sub) + [sub[0]]  # choices are a bag: a repeated one is just likelier
             override = {"a": list(sub)}
             allowed_now["a"] = list(sub)
         m_const = t.pick([0, 4], "m")
